@@ -119,7 +119,19 @@ impl World {
                 Ok(l) if l < self.addrs.len() => {
                     let id = self.next_conn;
                     let r: io::Result<Client> = match &self.addrs[l] {
-                        Addr::Tcp(a) => std::net::TcpStream::connect(a).and_then(|mut s| {
+                        Addr::Tcp(a) => {
+                            let mut tries = 0;
+                            loop {
+                                match std::net::TcpStream::connect(a) {
+                                    Err(e) if tries < 300 && matches!(e.kind(), io::ErrorKind::AddrInUse | io::ErrorKind::AddrNotAvailable) => {
+                                        tries += 1;
+                                        std::thread::sleep(Duration::from_millis(200));
+                                    }
+                                    r => break r,
+                                }
+                            }
+                        }
+                        .and_then(|mut s| {
                             // close with RST: thousands of short-lived loopback connections must not pile up in
                             // TIME_WAIT and exhaust the ephemeral ports of the machine
                             let _ = socket2::SockRef::from(&s).set_linger(Some(Duration::ZERO));
@@ -343,7 +355,21 @@ impl Case {
                 uds_paths.push(p);
                 specs.push(ListenerSpec::Uds(l));
             } else {
-                let l = std::net::TcpListener::bind("127.0.0.1:0")?;
+                // environment hiccups (ephemeral ports exhausted by TIME_WAIT sockets of other runs) are not
+                // property violations: wait for a port
+                let l = {
+                    let mut tries = 0;
+                    loop {
+                        match std::net::TcpListener::bind("127.0.0.1:0") {
+                            Ok(l) => break l,
+                            Err(e) if tries < 300 && matches!(e.kind(), io::ErrorKind::AddrInUse | io::ErrorKind::AddrNotAvailable) => {
+                                tries += 1;
+                                std::thread::sleep(Duration::from_millis(200));
+                            }
+                            Err(e) => return Err(e),
+                        }
+                    }
+                };
                 fds.push(l.as_raw_fd());
                 addrs.push(Addr::Tcp(l.local_addr()?));
                 specs.push(ListenerSpec::Tcp(l));
